@@ -26,7 +26,9 @@ CheckObs(S, id, o) ==
    LET a == o.a why == ToString(o.a) IN
    CASE o.q = "saved" ->
           LET L == Encode(S) IN
-          /\ Say(o.r.s = "ok", id, "C12", "save.status:" \o o.r.s, why)
+          \* a.partial: the caller's value map does not list a value that occurs - the writer may refuse (any error),
+          \* but a document it does write must still decode, by the header's maps alone, to the tree
+          /\ Say(o.r.s = "ok" \/ ("partial" \in DOMAIN a /\ a.partial), id, "C12", "save.status:" \o o.r.s, why)
           /\ (o.r.s = "ok" =>
                 /\ Say(Len(o.r.v.list) = Len(L), id, "C12", "layout.length", why)
                 /\ (Len(o.r.v.list) = Len(L) =>
